@@ -2,9 +2,10 @@
 
 Theorems: coq/theories/Properties_C17.v (erasing events from the stream gives exactly the C05 stream for
 every configuration; read/diff specification for plain configurations with -t/-D; watch decisions = changes
-of the observed sequence (cpu; var under the exact guard, refuted without, proved for the repaired variant);
-bounded exhaustive stream specification for -W cpu; refutations of the three defects found; the overlap
-guard of save_trigger_read).
+of the observed sequence (cpu and var); events - watch events included - vanish with a call that is not
+recorded; bounded exhaustive stream specification for -W cpu; the overlap guard of save_trigger_read;
+`_legacy_refuted` theorems for the four defects this check found (repaired in /repo), `_refuted` for the two
+known findings that remain).
 Tie: the real libmcount driven in-process (harness/c/mc_harness.c) with interposed getrusage(),
 /proc/self/statm, perf group reads, sched_getcpu() and a watched global; read= triggers, -W cpu / -W var,
 -t / -D / filters; state after every hook (+ pending-event count, watch state) and the complete stream
@@ -34,14 +35,10 @@ Require Import UV.Gen.Consts UV.Gen.C17Consts UV.Mcount.Model UV.Mcount.Forest U
 Local Open Scope N_scope.
 """
 
-# which variant of two decision points the code under test implements (determined by the dedicated witnesses
-# before the generated cases run; False/False = the code as found, True = with proposed-fixes/C17-2 / C17-3)
-VARIANT = {"fix_var": False, "fix_drop": False}
-
-KEY_ARGS = "read-diff-lost-with-args"
-KEY_VAR = "watch-var-copy-never-updated"
-KEY_DROP = "watch-event-survives-filtered-call"
-KEY_HEAP = "watch-item-heap-overflow"
+# known findings that remain (see known-findings.txt); the four defects found earlier are repaired in /repo and
+# their former witnesses are ordinary regression cases now
+KEY_ZERO = "zero-duration-events-twice"
+KEY_GAP = "watch-first-event-1ns"
 
 
 # ---------------------------------------------------------------- observations
@@ -171,8 +168,14 @@ def gen_case(rng, klass):
         o = step_obs(rng, o, wild)
         return {"k": c.k, "t0": c.t0, "t1": c.t1, "o0": o0, "o1": o, "kids": kids}
     xf = [walk(c) for c in fo]
+    args, rets = [], []
+    if not pure_cpu and rng.random() < 0.4:
+        # argument / return-value capture sharing the per-frame buffer with the events (one 8-byte value each)
+        pool = sorted(set(list(reads) + [rng.randrange(6)]))
+        args = sorted(rng.sample(pool, rng.randrange(1, len(pool) + 1)))
+        rets = sorted(k for k in pool if rng.random() < 0.4)
     case = {"klass": klass, "cfg": cfg, "reads": reads, "wcpu": wcpu, "wvar": wvar, "pmu": pmu, "xforest": xf,
-            "pure_cpu": pure_cpu}
+            "pure_cpu": pure_cpu, "args": args, "rets": rets}
     evs = xflatten(xf)
     if klass == "any" and rng.random() < 0.1:
         evs = evs[:rng.randrange(1, len(evs) + 1)]
@@ -226,9 +229,17 @@ def fixed_cases():
     xf = [call(0, 100, 300, ob(50), ob(7), [call(1, 110, 115, ob(40), ob(30)), call(1, 120, 220, ob(30), ob(20))])]
     out.append({"klass": "plain", "cfg": {"shape": "pg", "trig": {}, "pattern": "regex", "threshold": 50},
                 "reads": {0: ["pf"], 1: ["pf", "cycle"]}, "wcpu": False, "wvar": False, "pmu": True, "xforest": xf})
+    # read= and captured argument / return value on the same functions, negative differences, time-filtered child
+    xf = [call(0, 5000000000, 5000000300, ob(50), ob(7), [call(1, 5000000010, 5000000015, ob(40), ob(30)),
+                                                          call(1, 5000000020, 5000000220, ob(30), ob(20))])]
+    out.append({"klass": "plain", "cfg": {"shape": "pg", "trig": {}, "pattern": "simple", "threshold": 50},
+                "reads": {0: ["pf", "statm"], 1: ["pf"]}, "wcpu": False, "wvar": False, "pmu": False, "xforest": xf,
+                "args": [0, 1], "rets": [1]})
     for c in out:
         c["evs"] = xflatten(c["xforest"])
         c["complete"] = True
+        c.setdefault("args", [])
+        c.setdefault("rets", [])
     return out
 
 
@@ -256,6 +267,12 @@ def case_env(case):
         tg.append(name + "@" + ",".join("read=" + KIND_NAME[x] for x in ks))
     if tg:
         env["UFTRACE_TRIGGER"] = ";".join(([env["UFTRACE_TRIGGER"]] if env.get("UFTRACE_TRIGGER") else []) + tg)
+    def pat(k):
+        return {"simple": "f%d" % k, "regex": "^f%d$" % k, "glob": "f%d" % k}[pt]
+    if case.get("args"):
+        env["UFTRACE_ARGUMENT"] = ";".join(pat(k) + "@arg1" for k in case["args"])
+    if case.get("rets"):
+        env["UFTRACE_RETVAL"] = ";".join(pat(k) + "@retval" for k in case["rets"])
     w = []
     if case["wcpu"]:
         w.append("cpu")
@@ -285,19 +302,56 @@ def set_obs_lines(prev, o):
     return out
 
 
+def uses_payload(case):
+    return bool(case.get("args") or case.get("rets"))
+
+
 def script_of(case):
     cyg = case["cfg"].get("shape") == "cyg"
+    raw = uses_payload(case)
     lines = ["AUTOSTATE 2", "VALX statm_on 1", "VALX pmu_on %d" % (1 if case["pmu"] else 0)]
     prev = None
     for e in case["evs"]:
         lines += set_obs_lines(prev, e[3])
         prev = e[3]
         if e[0] == "E":
-            lines.append(("CE %d %d" if cyg else "E %d %d") % (e[1], e[2]))
+            lines.append(("CE %d %d" if cyg else ("EA %d %d 7" if raw else "E %d %d")) % (e[1], e[2]))
         else:
-            lines.append("CX %d %d" % (e[1], e[2]) if cyg else "X %d" % e[2])
-    lines.append("DUMP")
+            lines.append("CX %d %d" % (e[1], e[2]) if cyg else ("XR %d 42" if raw else "X %d") % e[2])
+    lines += ["BASE", "DUMPRAW"] if raw else ["DUMP"]
     return lines
+
+
+def parse_stream_raw(out):
+    """the same items from DUMPRAW (ENTRY/EXIT records may carry one 8-byte argument / return value)"""
+    base, hx = None, ""
+    for l in out:
+        if l.startswith("BASE "):
+            base = int(l.split()[1])
+        elif l.startswith("DUMPRAW"):
+            hx = l[7:].strip()
+    b = bytes.fromhex(hx)
+    off, items = 0, []
+    while off + 16 <= len(b):
+        t = int.from_bytes(b[off:off + 8], "little")
+        w = int.from_bytes(b[off + 8:off + 16], "little")
+        ty, more, magic, depth, addr = w & 3, (w >> 2) & 1, (w >> 3) & 7, (w >> 6) & 0x3ff, w >> 16
+        off += 16
+        if ty == 3:
+            ln = int.from_bytes(b[off:off + 2], "little") if more else 0
+            data = b[off + 2:off + 2 + ln]
+            if more:
+                off += (ln + 2 + 7) & ~7
+            size = 4 if addr == ID_CPU else 8
+            d = [int.from_bytes(data[i:i + size], "little") for i in range(0, len(data), size)]
+            items.append(("E", t, addr, d[1:] if addr == ID_VAR else d))
+        else:
+            if more:
+                off += 8
+            rel = addr - (base & ((1 << 48) - 1))
+            a = ("f", rel // 256, rel % 256) if 0 <= rel < 32 * 256 else ("x", addr, 0)
+            items.append(("R", t, ty, magic, depth, mch.addr_canon(a)))
+    return items
 
 
 def words(hexs, size):
@@ -369,16 +423,15 @@ def run_case(h, case, slot=0):
             states.append(tuple(cur) + (int(k[1]), k[2] == "1", int(k[3])))
             cur = None
     errno_ok = all(l.split()[-1] == "1" for l in out if l[:2] in ("E ", "X ", "CE", "CX") and len(l.split()) >= 2)
-    return {"states": states, "items": parse_stream(out), "errno_ok": errno_ok, "out": out, "err": err}
+    items = parse_stream_raw(out) if uses_payload(case) else parse_stream(out)
+    return {"states": states, "items": items, "errno_ok": errno_ok, "out": out, "err": err}
 
 
 # ---------------------------------------------------------------- Coq serialisation
 def coq_xcfg(case):
     rd = "; ".join("(%d, %d)" % (256 * k, sum(KIND_BIT[x] for x in ks)) for k, ks in sorted(case["reads"].items()))
-    return "(mkxcfg %s [%s] %s %s %s %s %s)" % (F.coq_cfg(case["cfg"], mch.SIZES).replace(SZ_LIT, "SZ"), rd,
-                                                 coq.coq_bool(case["wcpu"]), coq.coq_bool(case["wvar"]),
-                                                 coq.coq_bool(case["pmu"]), coq.coq_bool(VARIANT["fix_var"]),
-                                                 coq.coq_bool(VARIANT["fix_drop"]))
+    return "(mkxcfg %s [%s] %s %s %s)" % (F.coq_cfg(case["cfg"], mch.SIZES).replace(SZ_LIT, "SZ"), rd,
+                                           coq.coq_bool(case["wcpu"]), coq.coq_bool(case["wvar"]), coq.coq_bool(case["pmu"]))
 
 
 def coq_xevs(evs):
@@ -438,25 +491,19 @@ def read_calls_positive(case):
 
 def watch_spec_applicable(case):
     """threshold 0, every call takes time, hook times >= 2 apart, the pending queue never fills (model-free count
-    of the changes since the last EXIT), and the variable never returns to its value at the first hook"""
+    of the changes since the last EXIT)"""
     evs = case["evs"]
     if not case["complete"] or not hook_gaps_ok(evs):
         return False
     pending = 0
     prev_cpu = None
-    v0 = evs[0][3]["var"]
-    prev_var = v0
-    left = False
+    prev_var = evs[0][3]["var"]
     for e in evs:
         o = e[3]
         if case["wcpu"] and o["cpu"] != prev_cpu:
             pending += 1
         if case["wvar"] and o["var"] != prev_var:
             pending += 1
-        if o["var"] != v0:
-            left = True
-        elif left and case["wvar"] and not VARIANT["fix_var"]:
-            return False            # back at the initial value: known defect class (copy never updated)
         prev_cpu, prev_var = o["cpu"], o["var"]
         if pending > 4:
             return False
@@ -488,6 +535,10 @@ def inproc(ctx):
                 tags.append("watch:var")
             if not case["pmu"]:
                 tags.append("pmu-unavailable")
+            if uses_payload(case):
+                tags.append("with-arg/retval-capture")
+                if set(case["args"] + case["rets"]) & set(case["reads"]):
+                    tags.append("read+capture-on-one-function")
             if not hook_gaps_ok(case["evs"]):
                 tags.append("hook-gap-1ns")
             if any(s[9] >= 4 for s in res["states"]):
@@ -497,7 +548,8 @@ def inproc(ctx):
             if not read_calls_positive(case):
                 tags.append("zero-duration-read-call")
             nev = sum(1 for it in res["items"] if it[0] == "E")
-            ctx.case(key=(repr(case["cfg"]), repr(case["reads"]), case["wcpu"], case["wvar"], repr(case["evs"])),
+            ctx.case(key=(repr(case["cfg"]), repr(case["reads"]), case["wcpu"], case["wvar"], repr(case.get("args")),
+                          repr(case.get("rets")), repr(case["evs"])),
                      nontrivial=len(case["evs"]) >= 4 and nev > 0, tags=tags, size=len(case["evs"]),
                      sample=sample_of(case) if len(ctx.samples) < 3 and nev > 2 else None)
     ctx.log("in-process runs done: %d cases" % len(cases))
@@ -518,6 +570,7 @@ def threads(ctx):
         base = gen_case(rng, klass)
         base["wvar"] = False
         base["wcpu"] = True
+        base["args"], base["rets"] = [], []
         base["cfg"].pop("max_stack", None)
         for tr in base["cfg"]["trig"].values():      # mcount_enabled is one switch for the whole process, the model is
             tr.pop("trace_on", None)                 # per thread: no trace_on/trace_off under interleaved threads
@@ -525,7 +578,7 @@ def threads(ctx):
         per = [base]
         for _ in range(nth - 1):
             c = gen_case(rng, klass)
-            for k in ("cfg", "reads", "wcpu", "wvar", "pmu", "pure_cpu"):
+            for k in ("cfg", "reads", "wcpu", "wvar", "pmu", "pure_cpu", "args", "rets"):
                 c[k] = base[k]
             per.append(c)
         cyg = base["cfg"].get("shape") == "cyg"
@@ -590,7 +643,8 @@ def sample_of(case):
 
 def replay_obj(case, extra=None):
     o = {"mode": "inproc", "klass": case["klass"], "cfg": case["cfg"], "reads": case["reads"], "wcpu": case["wcpu"],
-         "wvar": case["wvar"], "pmu": case["pmu"], "events": case["evs"], "env": case_env(case),
+         "wvar": case["wvar"], "pmu": case["pmu"], "args": case.get("args", []), "rets": case.get("rets", []),
+         "events": case["evs"], "env": case_env(case),
          "impl_states": case["res"]["states"], "impl_stream": case["res"]["items"]}
     if case.get("thread_script"):
         o["thread_script"] = case["thread_script"]
@@ -622,7 +676,7 @@ def evaluate(ctx, cases, name="c17_cases"):
     spec = [(i, c) for i, c in enumerate(cases) if c["klass"] == "plain" and c["complete"] and read_calls_positive(c)
             and F_height(c["xforest"]) <= (c["cfg"].get("max_stack") or 1024)]
     defs += ("Definition d0 : xcfg * list xev * list xobs * list oitem := "
-             "(mkxcfg (mkcfg [] false false 0 0 0 [] PG) [] false false false false false, [], [], []).\n")
+             "(mkxcfg (mkcfg [] false false 0 0 0 [] PG) [] false false false, [], [], []).\n")
     defs += "Definition speccases : list bool := [\n%s\n].\n" % ";\n".join(
         "(let '(a, _, _, r) := nth %d cases d0 in ok_read_spec a %d %d [%s] r)" % (
             i, c["cfg"].get("threshold") or 0, c["cfg"]["depth"] if c["cfg"].get("depth") is not None else 1024,
@@ -685,19 +739,7 @@ def evaluate(ctx, cases, name="c17_cases"):
                                                        "events and watch state + the stream with events)"}), False)
 
 
-# ---------------------------------------------------------------- dedicated witnesses of the defects found
-def finding(ctx, key, text, still, replay):
-    """listed in known-findings.txt -> KNOWN-FINDING line; not (yet) listed -> recorded as proposed finding
-    (proposed-fixes/C17-*.diff and the proposed known-findings lines are in proposed-fixes/); a witness that no
-    longer fails is not an error"""
-    ctx.extra.setdefault("defect_witnesses", {})[key] = "still fails" if still else "no longer reproduces"
-    if still and not ctx.kf.listed(ctx.prop, key):
-        ctx.log("PROPOSED-FINDING (not listed in known-findings.txt yet): property=%s key=%s %s" % (ctx.prop, key, text))
-        ctx.extra.setdefault("proposed_findings", []).append({"key": key, "what": text, "replay": replay})
-        return
-    ctx.known_finding(key, text, still_fails=still, replay=replay)
-
-
+# ---------------------------------------------------------------- regression cases of the repaired defects
 def parse_raw_tail(hexs, first_payload):
     """records that follow an ENTRY/EXIT record with payload in a DUMP line: the harness prints the rest of the
     buffer; payloads of ENTRY/EXIT records have `first_payload` bytes here (one 8-byte argument / return value)"""
@@ -722,10 +764,10 @@ def parse_raw_tail(hexs, first_payload):
     return out
 
 
-def witnesses(ctx):
+def regressions(ctx):
+    """the witnesses of the four defects this check found (7cf042b, aa8baff, 35535f9, 197b449): ordinary cases now"""
     h = mch.Harness(ctx)
-    # (1) read= and argument capture in one frame: the diff event is lost.  The slot above the frame is primed with
-    #     a known size word first (f3 with one argument at depth 1), so that the entry-side guard is deterministic.
+    # (1) read= and argument capture in one frame (the slot above the frame is primed with a known size word)
     env = {"UFTRACE_TRIGGER": "f0@read=page-fault", "UFTRACE_ARGUMENT": "f0@arg1;f3@arg1"}
     script = ["VAL pagefault 5", "E 2 1000", "EA 3 1010 7", "X 1020", "X 1030", "EA 0 5000 7", "VAL pagefault 9", "X 5200",
               "DUMP"]
@@ -735,51 +777,39 @@ def witnesses(ctx):
         if l.startswith("R ") and " RAW" in l:          # the dump prints the rest of the buffer at the first payload
             tail = parse_raw_tail(l.split("RAW", 1)[1], 8)
             break
-    ids = [e[2] for e in tail if e[0] == "E" and e[1] in (5000, 5200)]
-    has_read, has_diff = 100002 in ids, 100004 in ids
-    ctx.case(key=("witness", KEY_ARGS), tags=["known:" + KEY_ARGS], sample={"script": script, "env": env, "events_after_entry": ids})
-    if not tail or not has_read:
-        ctx.violation("C17: a function with read=page-fault and one captured argument has no read event after ENTRY",
-                      {"mode": "witness", "script": script, "env": env, "out": out[-12:]}, True)
-    finding(ctx, KEY_ARGS, "read= trigger together with argument/return-value capture on the same function: the diff event is "
-            "never recorded (save_trigger_read's overlap guard adds the word at the EVENT pointer - the read event's time "
-            "stamp - to the buffer start)", has_read and not has_diff,
-            {"mode": "witness", "script": script, "env": env})
-    # (2) -W var: a change back to the value at the thread's first hook is not reported
+    evs = [(e[1], e[2], e[3]) for e in tail if e[0] == "E" and e[1] in (5000, 5200)]
+    ctx.case(key=("regression", "read+args"), tags=["regression:read-with-args-guard"],
+             sample={"script": script, "env": env, "events": evs})
+    if evs != [(5000, 100002, [0, 5]), (5200, 100004, [0, 4])]:
+        ctx.violation("C17: a function with read=page-fault and one captured argument must have READ (0,5) after ENTRY and "
+                      "DIFF (0,4) before EXIT; got %r" % (evs,), {"mode": "witness", "script": script, "env": env,
+                                                                   "out": out[-12:]}, True)
+    # (2) -W var: every change is reported, also back to the value at the thread's first hook
     script = ["VAL var 3", "E 0 100", "VAL var 4", "E 1 110", "VAL var 3", "X 120", "X 200", "DUMP"]
     env = {"UFTRACE_WATCH": "var:verif_watched_var"}
     out, _ = run_script(h, script, env, 91)
     vals = [it[3][0] for it in parse_stream(out) if it[0] == "E" and it[2] == ID_VAR]
-    ctx.case(key=("witness", KEY_VAR), tags=["known:" + KEY_VAR], sample={"script": script, "var_events": vals})
-    VARIANT["fix_var"] = vals == [4, 3]
-    if vals not in ([4], [4, 3]):
-        ctx.violation("C17: -W var reports %r for the observed sequence 3,4,3,3" % (vals,),
+    ctx.case(key=("regression", "var 3,4,3"), tags=["regression:watch-var-stale-copy"],
+             sample={"script": script, "var_events": vals})
+    if vals != [4, 3]:
+        ctx.violation("C17: -W var reports %r for the observed sequence 3,4,3,3 (expected 4,3)" % (vals,),
                       {"mode": "witness", "script": script, "env": env, "out": out[-12:]}, True)
-    finding(ctx, KEY_VAR, "-W var:NAME: save_watchpoint compares with the thread's copy made at its first hook and never "
-            "updates it: the observed sequence 3,4,3 yields one event (4) instead of two (4,3)", vals == [4],
-            {"mode": "witness", "script": script, "env": env})
-    # (3) watch events of a call dropped by the time filter are recorded anyway
+    # (3) watch events of a call dropped by the time filter are dropped with it
     script = ["VAL cpu 3", "E 0 100", "VAL cpu 4", "E 1 110", "VAL cpu 5", "X 120", "E 2 130", "X 190", "X 200", "DUMP"]
     env = {"UFTRACE_WATCH": "cpu", "UFTRACE_THRESHOLD": "50"}
     out, _ = run_script(h, script, env, 92)
     st = parse_stream(out)
     cpus = [(it[1], it[3][0]) for it in st if it[0] == "E" and it[2] == ID_CPU]
     f1 = [it for it in st if it[0] == "R" and it[5] == 256]
-    ctx.case(key=("witness", KEY_DROP), tags=["known:" + KEY_DROP], sample={"script": script, "cpu_events": cpus})
-    VARIANT["fix_drop"] = not ((109, 4) in cpus or (119, 5) in cpus)
-    ctx.extra["code_variant"] = dict(VARIANT)
-    if f1 or (101, 3) not in cpus:
-        ctx.violation("C17: time-filtered call recorded / first watch event missing in the drop witness",
-                      {"mode": "witness", "script": script, "env": env, "out": out[-12:]}, True)
-    finding(ctx, KEY_DROP, "watch events queued by a call that the time filter drops are recorded with the next record "
-            "(mcount_exit_filter_record tests event.idx < mtdp->idx before idx is decremented, keeping the exiting frame's "
-            "own events): f1 (10 ns, -t 50ns) is absent, its cpu=4 / cpu=5 events are present",
-            (109, 4) in cpus or (119, 5) in cpus, {"mode": "witness", "script": script, "env": env})
+    ctx.case(key=("regression", "drop"), tags=["regression:watch-events-survive-filtered-call"],
+             sample={"script": script, "cpu_events": cpus})
+    if f1 or cpus != [(101, 3)]:
+        ctx.violation("C17: -W cpu -t 50ns, f1 of 10 ns: f1 and its cpu events must be absent, the first event present; "
+                      "got cpu events %r" % (cpus,), {"mode": "witness", "script": script, "env": env, "out": out[-12:]}, True)
 
 
-def witness_valgrind(ctx):
-    """thorough tier: the global -W var item is allocated without room for its data and with `inited` unset;
-    mcount_watch_update writes / compares past the block (memcheck on the real libmcount)"""
+def regression_valgrind(ctx):
+    """thorough tier: no invalid access / uninitialised use in the -W var path (197b449), memcheck on the real libmcount"""
     h = mch.Harness(ctx)
     d = os.path.join(ctx.scratch, "c17vg")
     os.makedirs(d, exist_ok=True)
@@ -790,7 +820,7 @@ def witness_valgrind(ctx):
         p = subprocess.run(["timeout", "240", "valgrind", "-q", "--error-limit=no", h.exe], input=script, env=e,
                            capture_output=True, text=True, timeout=300)
     except (OSError, subprocess.TimeoutExpired) as ex:
-        ctx.log("valgrind witness skipped: %r" % (ex,))
+        ctx.log("valgrind regression case skipped: %r" % (ex,))
         return
     for f in os.listdir(d):
         if f.startswith("sid-"):
@@ -799,12 +829,49 @@ def witness_valgrind(ctx):
                     os.unlink(g)
                 except OSError:
                     pass
-    bad = [l for l in p.stderr.splitlines() if "mcount_watch_update" in l]
-    ctx.case(key=("witness", KEY_HEAP), tags=["known:" + KEY_HEAP], sample={"memcheck_lines": bad[:3]})
-    finding(ctx, KEY_HEAP, "-W var:NAME with an 8-byte variable: mcount_watch_init allocates the global watch item with "
-            "xmalloc(sizeof(*w)) - no room for data[], `inited` uninitialised; mcount_watch_update then reads an uninitialised "
-            "flag and writes/compares 4 bytes past the heap block (memcheck)", bool(bad),
-            {"mode": "witness", "script": script, "env": {"UFTRACE_WATCH": "var:verif_watched_var"}, "memcheck": bad[:6]})
+    bad = [l for l in p.stderr.splitlines() if "mcount_watch_update" in l or "save_watchpoint" in l]
+    ctx.case(key=("regression", "watch-var-alloc"), tags=["regression:watch-var-alloc"], sample={"memcheck_lines": bad[:3]})
+    if bad:
+        ctx.violation("C17: memcheck reports invalid / uninitialised accesses in the -W var path",
+                      {"mode": "witness", "script": script, "env": {"UFTRACE_WATCH": "var:verif_watched_var"},
+                       "memcheck": bad[:8]}, True)
+
+
+# ---------------------------------------------------------------- known findings that remain
+def known(ctx):
+    h = mch.Harness(ctx)
+    # a recorded call of zero duration gets every read / diff event twice (C17_zero_duration_refuted)
+    script = ["VAL pagefault 5", "E 0 100", "VAL pagefault 9", "X 100", "DUMP"]
+    env = {"UFTRACE_TRIGGER": "f0@read=page-fault,trace"}
+    out, _ = run_script(h, script, env, 93)
+    ids = [it[2] for it in parse_stream(out) if it[0] == "E"]
+    ctx.case(key=("known", KEY_ZERO), tags=["known:" + KEY_ZERO], sample={"script": script, "event_ids": ids})
+    if ids not in ([100002, 100004], [100002, 100004, 100002, 100004]):
+        ctx.violation("C17: zero-duration call with read=page-fault,trace: unexpected events %r" % (ids,),
+                      {"mode": "witness", "script": script, "env": env, "out": out[-12:]}, True)
+    ctx.known_finding(KEY_ZERO, "a recorded call whose ENTRY and EXIT carry the same time stamp gets every read and diff event "
+                      "twice", still_fails=len(ids) == 4, replay={"mode": "witness", "script": script, "env": env})
+    # the hook after a thread's first hook comes 1 ns later: an event is written inside a call that starts after
+    # the event's time stamp (C17_watch_times_gap1_refuted)
+    script = ["VAL cpu 1", "E 0 100", "VAL cpu 2", "E 1 101", "VAL cpu 3", "X 102", "VAL cpu 4", "X 200", "DUMP"]
+    env = {"UFTRACE_WATCH": "cpu"}
+    out, _ = run_script(h, script, env, 94)
+    st = parse_stream(out)
+    ctx.case(key=("known", KEY_GAP), tags=["known:" + KEY_GAP], sample={"script": script, "stream": st[:8]})
+    open_t, bad = [], False
+    for it in st:
+        if it[0] == "R" and it[2] == 0:
+            open_t.append(it[1])
+        elif it[0] == "R":
+            open_t.pop()
+        elif open_t and it[1] < open_t[-1]:
+            bad = True
+    cpus = [it[3][0] for it in st if it[0] == "E" and it[2] == ID_CPU]
+    if cpus != [1, 2, 3, 4]:
+        ctx.violation("C17: -W cpu with hooks 1 ns apart: cpu events %r (expected 1,2,3,4)" % (cpus,),
+                      {"mode": "witness", "script": script, "env": env, "out": out[-12:]}, True)
+    ctx.known_finding(KEY_GAP, "hooks 1 ns apart after a thread's first hook: a watch event is written inside a call that starts "
+                      "after the event's time stamp", still_fails=bad, replay={"mode": "witness", "script": script, "env": env})
 
 
 def F_height(xf):
@@ -817,7 +884,8 @@ def meta(ctx):
     ctx.rule = ("three classes of generated cases over 6 functions: 'plain' (-t/-D only, read= triggers with 1-5 kinds on 1-3 "
                 "functions, both shapes, three pattern syntaxes), 'watch0' (threshold 0, read= + -W cpu / -W var), 'any' "
                 "(C05 filter/trigger tables incl. trace_on/off, --max-stack overflow, zero durations, truncated histories, "
-                "read= + watch); random call forests, durations around the thresholds, hook gaps 1/2/5/50 ns, observation "
+                "read= + watch); in 40% of the cases one captured argument / return value on 1-3 functions, preferably those with "
+                "read= triggers (events and arguments share the frame buffer); random call forests, durations around the thresholds, hook gaps 1/2/5/50 ns, observation "
                 "sequences with growing/shrinking counters (negative differences), cpu/var values that change or stay; "
                 "distinct = distinct (cfg, reads, watch, events+observations); non-trivial = >=4 hooks and >=1 event recorded")
     ctx.trusted = [
@@ -830,8 +898,9 @@ def meta(ctx):
     ]
     ctx.assume = [
         "asynchronous (SDT) events, scripts and the finish/recover triggers are outside the model",
-        "argument / return-value capture on a function that also has a read= trigger is outside the stream model (the "
-        "overlap guard reads uninitialised memory there: buffer-level model + dedicated witness)",
+        "argument / return-value payloads are not part of the stream model: the tie generates one 8-byte argument / return "
+        "value on functions that may also have read= triggers (every event fits, C17_event_area_disjoint / C17_guard_exact "
+        "at buffer level); argument areas large enough to make the guard reject an event are not generated",
         "one thread per case for -W var (the global watch item is shared between threads); no trace_on/trace_off under "
         "interleaved threads (mcount_enabled is one switch for the whole process, the model is per thread)",
         "stream-level placement of watch events is a theorem only on the bounded domain of C17_watch_stream_small; "
@@ -844,11 +913,12 @@ def run(ctx):
     meta(ctx)
     coq.prove(ctx, "C17")
     build.get_build("plain", ctx.log)
-    witnesses(ctx)          # first: they also tell which variant of the two repaired decision points the code has
+    regressions(ctx)
+    known(ctx)
     inproc(ctx)
     threads(ctx)
     if ctx.thorough():
-        witness_valgrind(ctx)
+        regression_valgrind(ctx)
 
 
 def replay(ctx, obj):
@@ -856,12 +926,12 @@ def replay(ctx, obj):
     coq.prove(ctx, "C17")
     if obj.get("mode") != "inproc" or "events" not in obj:
         return run(ctx)
-    witnesses(ctx)
     h = mch.Harness(ctx)
     cfg = obj["cfg"]
     cfg["trig"] = {int(k): v for k, v in cfg.get("trig", {}).items()}
     case = {"klass": obj.get("klass", "any"), "cfg": cfg, "reads": {int(k): v for k, v in obj["reads"].items()},
-            "wcpu": obj["wcpu"], "wvar": obj["wvar"], "pmu": obj["pmu"],
+            "wcpu": obj["wcpu"], "wvar": obj["wvar"], "pmu": obj["pmu"], "args": obj.get("args", []),
+            "rets": obj.get("rets", []),
             "evs": [tuple(e) for e in obj["events"]], "complete": False, "xforest": []}
     case["res"] = run_case(h, case)
     ctx.case(key="replay", sample=sample_of(case))
